@@ -48,6 +48,7 @@ def run(ctx):
     pinned(ctx)
     if os.environ.get("VERIF_ONLY_PINNED"):
         return
+    concurrent_views(ctx, 300 if quick else 30000)
     for i in range(n):
         root = ctx.scratch(f"w{i}")
         ws = gen.gen_workspace(root, ctx.rng, depth=ctx.rng.randint(1, 3), venv=(i % 2 == 0))
@@ -67,6 +68,55 @@ def run(ctx):
             except Exception:
                 pass
         one(ctx, os.path.join(root, "p"), files, {os.path.relpath(k, root): v for k, v in files.items()}, generated=False, spec="test_project")
+
+
+def concurrent_views(ctx, count):
+    """the per-file view is computed (and cached) by one request while an edit of the conftest completes on another
+    thread; at quiescence the view's entry for a name and go-to-definition from a usage of it must name the same
+    definition.  Interleavings come from the serialising scheduler of the instrumented DashMap (shard-lock granularity)."""
+    import json as _j
+    from ..vh import VH
+    from ..runner import vh_bin
+    from .c07 import CQ_CONF1, CQ_CONF2, CQ_TEST
+    D = "/vf_c05/pkg"
+    conf, test = f"{D}/conftest.py", f"{D}/test_t.py"
+    setup = [{"op": "analyze", "db": 0, "path": conf, "text": CQ_CONF1}, {"op": "analyze", "db": 0, "path": test, "text": CQ_TEST}]
+    threads = [[{"op": "analyze", "db": 0, "path": conf, "text": CQ_CONF2}],
+               [{"op": "available", "db": 0, "path": test}, {"op": "available", "db": 0, "path": test}],
+               [{"op": "available", "db": 0, "path": conf}]]
+    col = CQ_TEST.index("db")
+    after = [{"op": "available", "db": 0, "path": test, "observe": True},
+             {"op": "goto", "db": 0, "path": test, "line": 0, "char": col, "observe": True}]
+    vh = VH(vh_bin(), locklog=os.path.join(ctx.scratch_root, "lock_vh.log"), env={"VERIF_SHARDS": "2"})
+    try:
+        for mode, pct in (("uniform", None), ("pct2", 2)):
+            r = vh.call(op="sched_scenario", setup=setup, threads=threads, after=after, seed=ctx.seed * 131 + 3, count=count, pct=pct,
+                        est=200, timeout=1800)
+            if "distinct_schedules" not in r:
+                raise Inconclusive(f"harness refused the scenario: {str(r)[:300]}")
+            ctx.judged(count)
+            for o in r["outcomes"]:
+                obs = o["index"].split(";;OBS=", 1)[-1]
+                view, target = None, "?"
+                for part in obs.split("|{"):
+                    part = part if part.startswith("{") else "{" + part
+                    try:
+                        v = _j.loads(part)
+                    except Exception:
+                        continue
+                    if "available" in v:
+                        view = [(a["file"], a["line"]) for a in v["available"] if a["name"] == "db"]
+                    if "target" in v:
+                        target = (v["target"]["file"], v["target"]["line"]) if v["target"] else None
+                if view is None or target == "?":
+                    raise Inconclusive("observation could not be decoded: " + obs[:200])
+                if view != [target]:
+                    ctx.violation({"kind": "view-and-navigation-disagree-after-concurrent-edit", "mode": mode},
+                                  {"seed": o["first_seed"], "count": o["count"], "view_entry": view, "definition": target})
+            ctx.nontrivial(("concurrent_views", mode, r["distinct_schedules"] > 10))
+            ctx.extra["concurrent_view_schedules"] = ctx.extra.get("concurrent_view_schedules", 0) + r["distinct_schedules"]
+    finally:
+        vh.close()
 
 
 def one(ctx, root, abs_files, rel_files, generated, spec):
@@ -201,6 +251,19 @@ def one(ctx, root, abs_files, rel_files, generated, spec):
                     ctx.nontrivial((u["kind"], min(ndefs.get(u["name"], 0), 4), tuple(sorted(k for k, v in vals.items() if v is not None)), self_named))
 
         sweep()
+        if generated and ctx.rng.random() < 0.5:
+            # every conftest is opened and closed again (its text leaves the server's text cache, nothing else changes):
+            # the features must still agree with each other
+            confs_ = [f for f in abs_files if f.endswith("conftest.py") and "/.venv/" not in f]
+            for cf in confs_:
+                before = srv.seq
+                srv.did_open(cf, abs_files[cf])
+                srv.wait_diagnostics(cf, before, timeout=20)
+            for cf in confs_:
+                srv.did_close(cf)
+            ctx.count("conftests_closed", len(confs_))
+            ctx.nontrivial(("after_closing_conftests",))
+            sweep()
         if generated:
             # import-only edit of a conftest (buffer only), then the same comparison again: the cached per-file
             # view must follow the navigation features
